@@ -30,6 +30,8 @@ class UniformGenerator(AnalysisGenerator):
     _sizes : dict
         A dictionary mapping variable names to their sizes, determined from the 'lower' and 'upper'
         bounds in the var_dict.
+    _rng : RandomState or module
+        The random number stream the samples are drawn from (private when a seed is given).
     """
 
     def __init__(self, var_dict, num_samples=1, seed=None):
@@ -54,8 +56,12 @@ class UniformGenerator(AnalysisGenerator):
         ValueError
             Raised if the length of var_dict for each case are not all the same size.
         """
+        # a private stream (the same numbers np.random.seed(seed) would give), so that the samples do not
+        # depend on what else uses np.random between construction and the last sample
         if self._seed is not None:
-            np.random.seed(self._seed)
+            self._rng = np.random.RandomState(self._seed)
+        else:
+            self._rng = np.random
 
         self._iter = iter(range(self._num_samples))
 
@@ -87,7 +93,7 @@ class UniformGenerator(AnalysisGenerator):
         d = {}
         for name, meta in self._var_dict.items():
             d[name] = {
-                'val': np.random.uniform(meta['lower'], meta['upper'], sizes[name]),
+                'val': self._rng.uniform(meta['lower'], meta['upper'], sizes[name]),
                 'units': meta.get('units', None),
                 'indices': meta.get('indices', None)
             }
